@@ -180,7 +180,8 @@ def check_random(case, ctx):
         check_twin(case, ctx, labels)
         rd, D = _reader_for(case, ctx)
     for pl in case["plans"]:
-        labs, nb = check_plan(rd, D, pl, alloc)
+        with vs.debug_logging(case.get("debug_log")):
+            labs, nb = check_plan(rd, D, pl, alloc)
         labels += labs
         labels.append("plan")
         if nb >= 2:
@@ -245,7 +246,8 @@ def strat_random(tier):
         return {"layout": lay, "plans": plans, "np_alloc": draw(st.sampled_from([False, False, False, True])),
                 # opened by relative names, the process then moves to a directory holding same-named other files
                 "relpath": draw(st.sampled_from([False, False, False, True])),
-                "twin": draw(st.sampled_from([False, False, False, True]))}
+                "twin": draw(st.sampled_from([False, False, False, True])),
+                "debug_log": draw(st.sampled_from([False, False, False, False, True]))}
 
     return s()
 
